@@ -7,7 +7,7 @@
    parametric in the per-connection machine (cstate, cinit, cclosed, process, flush).
    PARTIAL with respect to the property text: the Go memory model, the scheduler and the
    race detector are outside the model; "no data race" is the lockset statement below. *)
-From GP Require Import Base C12Model C12Proofs C12Link C12Term C12Once C12AgeFree.
+From GP Require Import Base C12Model C12Proofs C12Link C12Term C12Once C12AgeFree C12Flush.
 Open Scope nat_scope.
 
 Section Statements.
@@ -279,6 +279,83 @@ Print Assumptions C12_runs_finite.
 Print Assumptions C12_complete_run.
 Print Assumptions C12_final_all_done.
 Print Assumptions C12_machine_tight_tcpassembly.
+
+(* After FlushAll, called while every other assembler is quiescent (returned or dead), the pool
+   holds no connection: the call runs to its end (only the flusher can step) and the map is
+   empty.  This holds for the code AS IT STANDS, with recycling: the recorded
+   recycled-connection findings all need a second assembler that is still inside a call
+   (a stale pointer), which quiescence excludes.  Hypotheses on the machine: machine_ok,
+   machine_tight, and FlushAll closes an open connection (machine_flushall_closes), all three
+   proved for both concrete machines.  trail_cfg g = false: tcpassembly, or reassembly without
+   the second remove (which FlushAll never performs, C12_reassembly_flushall_no_second_remove). *)
+Theorem C12_flushall_empties_pool : forall cstate cinit cclosed creset process flush ctrail g progs s t rest,
+  machine_ok cstate cinit cclosed creset process flush ->
+  machine_tight cstate cclosed process flush ->
+  machine_flushall_closes cstate cclosed flush ->
+  trail_cfg g = false ->
+  reachable cstate cinit cclosed creset process flush ctrail g progs s ->
+  quiescent_but cstate s t -> t_pc (thr s t) = PStart -> t_prog (thr s t) = OFlush None :: rest ->
+  exists s', runs cstate cinit cclosed creset process flush ctrail g s s' /\
+             reachable cstate cinit cclosed creset process flush ctrail g progs s' /\
+             s_conns s' = [] /\ t_pc (thr s' t) = next_pc rest /\ t_prog (thr s' t) = rest /\
+             quiescent_but cstate s' t.
+Proof.
+  intros cs ci cc cr pr fl ct g progs s t rest Hm Ht Hf GT R Q Hpc Hpr.
+  exact (flushall_empties_pool cs ci cc cr pr fl ct Hm Ht Hf g progs s t rest GT R Q Hpc Hpr).
+Qed.
+Print Assumptions C12_flushall_empties_pool.
+Theorem C12_machine_tight_reassembly : machine_tight rconn rc_closed rsm_process rsm_flush.
+Proof. exact rsm_machine_tight. Qed.
+Theorem C12_flushall_closes_tcpassembly : machine_flushall_closes tconn tc_closed tcp_flush.
+Proof. exact tcp_flushall_closes. Qed.
+Theorem C12_flushall_closes_reassembly : machine_flushall_closes rconn rc_closed rsm_flush.
+Proof. exact rsm_flushall_closes. Qed.
+Print Assumptions C12_machine_tight_reassembly.
+Print Assumptions C12_flushall_closes_tcpassembly.
+Print Assumptions C12_flushall_closes_reassembly.
+(* the code as it stands, tcpassembly *)
+Theorem C12_flushall_empties_pool_tcpassembly : forall progs s t rest,
+  reachable tconn tc_init tc_closed tcp_reset tcp_process tcp_flush tcp_trail cfg_tcp progs s -> quiescent_but tconn s t ->
+  t_pc (thr s t) = PStart -> t_prog (thr s t) = OFlush None :: rest ->
+  exists s', reachable tconn tc_init tc_closed tcp_reset tcp_process tcp_flush tcp_trail cfg_tcp progs s' /\ s_conns s' = [] /\ t_pc (thr s' t) = next_pc rest.
+Proof.
+  intros progs s t rest R Q Hpc Hpr.
+  destruct (C12_flushall_empties_pool tconn tc_init tc_closed tcp_reset tcp_process tcp_flush tcp_trail cfg_tcp
+              progs s t rest tcp_machine_ok tcp_machine_tight tcp_flushall_closes eq_refl R Q Hpc Hpr)
+    as [s' [_ [R' [Hc [Hp _]]]]].
+  exists s'. auto.
+Qed.
+Print Assumptions C12_flushall_empties_pool_tcpassembly.
+
+(* C12_complete_once, full and about complete runs: without recycling, a FlushAll called when every
+   other assembler is quiescent returns with an empty pool and every stream that was ever
+   entered in the pool completed exactly once.  The two hypotheses cannot be dropped:
+   g_recycle g = false  - witnesses C12_complete_once_refuted_tcpassembly / _reassembly
+                           (a recycled object that lost the insert race evicts the winner);
+   trail_cfg g = false  - witness C12_complete_once_refuted_reassembly_age_flush
+                           (reassembly's second, unlocked remove after an age-based flush);
+   with both findings present only the at-most-once half remains (C12_complete_once_partial). *)
+Theorem C12_complete_once_after_flushall : forall cstate cinit cclosed creset process flush ctrail g progs s t rest,
+  machine_ok cstate cinit cclosed creset process flush ->
+  machine_tight cstate cclosed process flush ->
+  machine_flushall_closes cstate cclosed flush ->
+  trail_cfg g = false -> g_recycle g = false ->
+  reachable cstate cinit cclosed creset process flush ctrail g progs s ->
+  quiescent_but cstate s t -> t_pc (thr s t) = PStart -> t_prog (thr s t) = OFlush None :: rest ->
+  exists s', runs cstate cinit cclosed creset process flush ctrail g s s' /\
+             reachable cstate cinit cclosed creset process flush ctrail g progs s' /\
+             s_conns s' = [] /\ t_pc (thr s' t) = next_pc rest /\
+             (forall sid, In sid (s_kept s') -> completes sid (s_log s') = 1) /\
+             (forall sid, completes sid (s_log s') <= 1).
+Proof.
+  intros cs ci cc cr pr fl ct g progs s t rest Hm Ht Hf GT G R Q Hpc Hpr.
+  destruct (flushall_empties_pool cs ci cc cr pr fl ct Hm Ht Hf g progs s t rest GT R Q Hpc Hpr)
+    as [s' [Hr [R' [Hc [Hp _]]]]].
+  exists s'. split; [exact Hr|]. split; [exact R'|]. split; [exact Hc|]. split; [exact Hp|]. split.
+  - exact (complete_exactly_once cs ci cc cr pr fl ct Hm g progs s' GT G R' Hc).
+  - intros sid. exact (proj1 (is_once _ _ _ _ (inv_str_reachable cs ci cc cr pr fl ct Hm g progs s' GT R') sid)).
+Qed.
+Print Assumptions C12_complete_once_after_flushall.
 
 (* the hypothesis on the per-connection machine holds for the two concrete machines *)
 Theorem C12_machine_ok_tcpassembly : machine_ok tconn tc_init tc_closed tcp_reset tcp_process tcp_flush.
